@@ -149,8 +149,8 @@ def build():
     a = u.extract(O, r'impl<F> Op<F>', 'apply_witness_rewrite', 'Op::apply_witness_rewrite')
     a.rewrite_re('R12', r'\bSelf::', 'Op::', min_count=5)
     cl = 'requires acyclic(rewrite@) ensures r == root(rewrite@, id)'
-    a.annotate_closure('|id| id.resolve(rewrite)', 'id: WitnessId', 'r: WitnessId', cl, nth=1)
-    a.annotate_closure('|id| id.resolve(rewrite)', 'id: WitnessId', 'r: WitnessId', cl, nth=0)
+    for nth_ in reversed(range(len(_find_all('|id| id.resolve(rewrite)', a.body)))):      # every occurrence present (a missing one is for the postcondition to notice)
+        a.annotate_closure('|id| id.resolve(rewrite)', 'id: WitnessId', 'r: WitnessId', cl, nth=nth_)
     # R5: iter_mut loops -> index loops (2 flat + 2 nested)
     a.iter_mut_to_index('w', 'inputs', 'hi')
     a.iter_mut_to_index('w', 'outputs', 'ho')
